@@ -22,9 +22,9 @@ def _snapshot():
   return out
 
 
-def c12_step(locked: bool, has: bool, op: int, body: int, v0: int, v1: int, v2: int) -> bool:
+def c12_step(locked: bool, has: bool, op: int, body: int, regkind: int, v0: int, v1: int, v2: int) -> bool:
   """
-  pre: 0 <= op < 6 and 0 <= body < 6
+  pre: 0 <= op < 6 and 0 <= body < 6 and 0 <= regkind < 4
   """
   world.fresh()
   locked, has = rt.flag(locked), rt.flag(has)
@@ -32,6 +32,21 @@ def c12_step(locked: bool, has: bool, op: int, body: int, v0: int, v1: int, v2: 
   body = rt.pick(body, 6)
   if op != 5 and body != 0:
     rt.discard()
+  regkind = rt.pick(regkind, 4)
+  if op != 2 and regkind != 0:
+    rt.discard()
+  # a class one of whose methods is registered on its own BEFORE the config is locked
+  pre_cls = None
+  if op == 2 and regkind in (2, 3):
+    with rt.native():
+      class C12WithMethod:
+        def __init__(self, z=1):
+          self.z = z
+        @gin.register
+        def c12meth(self, m=0):
+          return ('c12meth', m)
+      pre_cls = C12WithMethod
+    gin.bind_parameter('vf.harness.c12.c12meth.m', v2)
   if has:
     gin.bind_parameter('vw.dflt.a', v0)
   if locked:
@@ -53,8 +68,20 @@ def c12_step(locked: bool, has: bool, op: int, body: int, v0: int, v1: int, v2: 
       with rt.native():
         def c12tmp(z=1):
           return z
+
+        class C12Plain:
+          def __init__(self, z=1):
+            self.z = z
+        c12tmp = [c12tmp, C12Plain, pre_cls, pre_cls][regkind]
+        c12tmp.__name__ = 'c12tmp'
+        init_before = vars(c12tmp).get('__init__') if regkind else None
       registered = c12tmp
-      gin.external_configurable(c12tmp, module='vw')
+      if regkind == 1:
+        gin.configurable('c12tmp', module='vw')(c12tmp)          # decorates the class in place
+      elif regkind == 3:
+        gin.register('c12tmp', module='vw')(c12tmp)
+      else:
+        gin.external_configurable(c12tmp, 'c12tmp', module='vw')
     elif op == 3:
       gin.finalize()
     elif op == 4:
@@ -90,6 +117,23 @@ def c12_step(locked: bool, has: bool, op: int, body: int, v0: int, v1: int, v2: 
         else:
           was_registered = False
         gc._INVERSE_REGISTRY.pop(registered, None)
+        side_effect = None
+        if regkind and locked:
+          if vars(registered).get('__init__') is not init_before:
+            side_effect = 'the class was decorated although the registration was rejected'
+          if regkind in (2, 3):
+            # the separately registered method must still be addressable and bound as before
+            try:
+              if gin.query_parameter('vf.harness.c12.c12meth.m') is not v2:
+                side_effect = 'binding of the separately registered method changed'
+            except Exception as e_:
+              side_effect = 'rejected class registration re-keyed its registered method: %r' % (e_,)
+        for n_ in list(gc._REGISTRY._selector_map):
+          if 'c12meth' in n_:
+            gc._REGISTRY.pop(n_)
+        if pre_cls is not None:
+          gc._INVERSE_REGISTRY.pop(vars(pre_cls)['c12meth'], None)
+        gc._RENAMED_SELECTORS.clear()
   after = _snapshot()
   now_locked = gin.config_is_locked()
 
@@ -98,6 +142,8 @@ def c12_step(locked: bool, has: bool, op: int, body: int, v0: int, v1: int, v2: 
       ok = isinstance(exc, RuntimeError) and after == before and now_locked
       if op == 2:
         ok = ok and not was_registered
+        if side_effect:
+          return rt.no(side_effect)
       return ok
     if exc is not None or now_locked:
       return False
@@ -235,11 +281,13 @@ HARNESSES = {
         fn='c12_step',
         anchors=['gin.config:unlock_config', 'gin.config:finalize', 'gin.config:bind_parameter',
                  'gin.config:_make_configurable'],
-        smoke=[dict(locked=True, has=True, op=5, body=1, v0=1, v1=2, v2=3),
-               dict(locked=True, has=True, op=2, body=0, v0=1, v1=2, v2=3)],
+        smoke=[dict(locked=True, has=True, op=5, body=1, regkind=0, v0=1, v1=2, v2=3),
+               dict(locked=True, has=True, op=2, body=0, regkind=0, v0=1, v1=2, v2=3),
+               dict(locked=True, has=False, op=2, body=0, regkind=2, v0=1, v1=2, v2=3)],
         tiers={'quick': dict(split=dict(op=list(range(6))), budget_s=100),
                'thorough': dict(split=dict(op=list(range(6)), locked=[False, True]), budget_s=300)},
-        bounds='one operation from every (locked?, binding present?) state: bind, parse_config, register, '
+        bounds='one operation from every (locked?, binding present?) state: bind, parse_config, register (a function, a class '
+               'decorated in place, a class with a separately registered method through external_configurable / register), '
                'finalize, clear_config, unlock_config with 6 body shapes (nop, bind, raise, nested, nested '
                'raising caught, nested raising propagating); values: all ints. Inductive step: covers '
                'histories of any length over this state space.'),
